@@ -212,6 +212,9 @@ def check(pm: ProgramModel, ctx: Ctx) -> None:
                  "apostrophes", "dot-inside", "dot-and-punct", "leading-blank", "trailing-blank", "number-like", "decomposed-accent"):
         nm = NAME_CLASSES[cls_]
         validate(ctx, pm, "C11-ONEENC", f"feature-name:{cls_}", name_model(mb, nm), f"feature named {nm!r}")
+    for cls_ in ("space", "dot-inside", "apostrophes", "opword"):
+        validate(ctx, pm, "C11-ONEENC", f"root-name-in-constraint:{cls_}", name_model(mb, NAME_CLASSES[cls_], in_ctc=True, as_root=True),
+                 f"root named {NAME_CLASSES[cls_]!r} and used in a constraint")
     wc = pm.cls(W)
     where = loc(wc.unit.path, wc.node)
     for key, aname in (("plain", "cost"), ("space", "unit cost"), ("punct", "cost-eur")):
